@@ -165,4 +165,17 @@ CHECKS = {
                  extra=OP_EXTRA, instrument=OP_INSTR, gomaxprocs=1),
         ],
     },
+    "C06": {
+        "level": "model_checking",
+        "engine": "E2+E1",
+        "technique": "exhaustive enumeration of ORDER assignments on the real hook manager; stateless model checking (delay-bounded) of operator start-up over generated hook sets and start-up failures",
+        "level_text": "Part a: GetHooksInOrder(OnStartup) on a real Manager for every assignment of ORDER in {1,2,3} to 1..9 (10) hooks and of ORDER in {1,2} to 13,14 (..17) hooks; oracle: ascending ORDER, ties in path order. Part b: the real Start() on generated hook sets (1-3 hooks from a menu mixing onStartup, kubernetes bindings with and without group, executeHookOnSynchronization false, a v0 hook, schedules, a named queue) with an environment firing ticks and cluster changes from the very first moment and with the j-th start-up execution failing k in {0,1,2} times; all schedules within the delay bound; oracle on the execution log: onStartup hooks exactly once in (ORDER, path) order before anything else, then per hook in path order each binding's Synchronization once (one execution per group, none when switched off or v0) in main, before any Event of that binding and before any Schedule task of that hook.",
+        "level_note": "Trusted: scheduler, hub, process stand-in, fake cluster, reference in the harness.",
+        "rule": "product enumeration (part a); hook sets x failure injection x DFS over schedules within the bound (part b); non-trivial = ties in ORDER / a failure or deviation; distinct = distinct order / execution log",
+        "parts": [
+            part("c06a", "pkg/hook", "TestVerifC06a", ["zz_verif_c06_test.go"], shards={"quick": 8, "thorough": 16}),
+            part("c06b", "pkg/shell-operator", "TestVerifC06b", ["zz_verif_c06_test.go", "zz_verif_c03_test.go", "zz_verif_fixture_test.go"], shards={"quick": 48, "thorough": 64},
+                 extra=OP_EXTRA, instrument=OP_INSTR, gomaxprocs=1),
+        ],
+    },
 }
